@@ -79,6 +79,7 @@ Proof. vm_compute. reflexivity. Qed.
 
 Definition shapes_ok : bool :=
   find_file_shape_ok && do_find_direct_shape_ok && do_find_loop_shape_ok && relative_shape_ok
+  && normalize_shape_ok && loadcss_lock_shape_ok
   && lock_shape_ok && unlock_shape_ok && fsloader_shape_ok && plain_css_shape_ok.
 Lemma shapes_ok_true : shapes_ok = true.
 Proof. vm_compute. reflexivity. Qed.
